@@ -151,7 +151,9 @@ def run_shard(args):
             base = gref.render(toks)
             bd = py_dump(base)
             seenv = {base}
-            gens = [variants(toks, sites and cost <= sites, layouts=(None if cost <= 2 else ['crlf', 'comments-crlf-tab', 'spread-comments']))]
+            # soft-keyword statements get the site rewrites one level deeper: their recognition looks ahead over the whole header line
+            soft = bool(toks) and toks[0] in ('match', 'type', 'case')
+            gens = [variants(toks, sites and cost <= sites + (1 if soft else 0), layouts=(None if cost <= 2 else ['crlf', 'comments-crlf-tab', 'spread-comments']))]
             if pairs and cost <= pairs:
                 gens += [variants(toks, True, pair_with=ln) for ln in PAIR_LAYOUTS]
             for kind, vt in (kv for g in gens for kv in g):
@@ -212,7 +214,7 @@ def run(tier, seed):
         total.merge(r)
     total.states = len(allh)
     total.nontrivial = total.validated
-    rule = ('every G_ref sentence (valid or not) with <=%d non-default alternatives x the global layouts %s (+ mixed newline styles), and every sentence with <=%d x every single site rewrite: '
+    rule = ('every G_ref sentence (valid or not) with <=%d non-default alternatives x the global layouts %s (+ mixed newline styles), and every sentence with <=%d (match/type statements: one more) x every single site rewrite: '
             'inserted line %r before every line, line end %r on every line, form feed before indentation, a break %r between every two tokens inside brackets, a join %r between every two tokens '
             'outside brackets, parentheses (tight and spaced) around every expression node CPython reports; a variant is judged iff CPython gives base and variant the same position-free tree (or rejects '
             'both); thorough additionally: every pair (global layout in %r) x (site rewrite) on sentences with <=1, and 3 layouts on cost-3 sentences; states = distinct judged variants, transitions = base/variant comparisons' % (d, GLOBAL_LAYOUTS, sites, INSERT_LINES, LINE_ENDS, IN_BRACKET, OUT_BRACKET, PAIR_LAYOUTS))
